@@ -109,6 +109,9 @@ pub struct Invocation {
     pub faults: Vec<Fault>,
     pub sched: Sched,
     pub dir_key: u64,
+    /// what the user does to the tree before this invocation: (world-relative path, new bytes)
+    #[serde(default)]
+    pub pre_edits: Vec<(String, Vec<u8>)>,
 }
 
 #[derive(Serialize, Deserialize, Clone, Debug, Default, PartialEq)]
